@@ -325,6 +325,10 @@ func concHarnesses() []concArg {
 			{{K: "REMOVE", H: "root/d2", N: "x"}}, {{K: "RENAME", H: "root/d2", N: "x", H2: "root/d2", N2: "z"}, {K: "CREATE", H: "root/d2", N: "x", As: "x2"}}}},
 		{Name: "lookup-inverted-rename-create", DiskSize: 3000, Setup: inv(fsx.Op{K: "CREATE", H: "root/d2", N: "x"}), Clients: [][]fsx.Op{
 			{{K: "LOOKUP", H: "root/d2", N: "x", As: "l"}, {K: "GETATTR", H: "l"}}, {{K: "RENAME", H: "root/d2", N: "x", H2: "root/d2", N2: "z"}, {K: "MKDIR", H: "root/d2", N: "x", As: "x2"}}}},
+		// one directory, the renamed file's number below the directory's, the target above: the target disappears
+		// after RENAME's first pass while its ordered locking pass already holds the lower numbers
+		{Name: "rename-over-remove-one-dir-inverted", DiskSize: 3000, Setup: inv(fsx.Op{K: "CREATE", H: "root/d2", N: "a"}, fsx.Op{K: "CREATE", H: "root/d2", N: "b"}), Clients: [][]fsx.Op{
+			{{K: "RENAME", H: "root/d2", N: "a", H2: "root/d2", N2: "b"}}, {{K: "REMOVE", H: "root/d2", N: "b"}}, {{K: "LOOKUP", H: "root/d2", N: "a"}}}},
 		// RENAME over an existing target aborts and re-locks; in that gap another client's request aborts after having
 		// modified the directory (its cached inode is dropped) and a further one updates the directory
 		{Name: "rename-over-abort-create-one-dir", DiskSize: 3000, Setup: []fsx.Op{{K: "MKDIR", H: "root", N: "d"}, {K: "CREATE", H: "root/d", N: "a"}, {K: "CREATE", H: "root/d", N: "b"}}, Clients: [][]fsx.Op{
